@@ -45,13 +45,22 @@ def main():
                 sout = 'suite timed out'
             suite_ok = '55 passed' in sout and '4 errors' in sout
             t0 = time.time()
-            rc, out = sh(f"./check {mu['property']} --no-evidence --no-shrink", cwd=VERIF, env={'HABUTAX_REPO': d})
+            rc, out = sh(f"./check {mu['property']} --no-evidence", cwd=VERIF, env={'HABUTAX_REPO': d})
             first = next((l.strip() for l in out.split('\n') if l.startswith('  ')), '')
             status = 'caught' if rc == 1 else ('harness-error' if rc == 2 else 'not-caught')
             ok = (status == mu['expect'])
+            replay = None
+            if status == 'caught' and os.environ.get('MUTANT_REPLAY', '1') == '1':
+                rp = next((l.split('replay=')[1].strip() for l in out.split('\n') if l.startswith('VIOLATION')), None)
+                if rp:
+                    r1, _ = sh(f"./check {mu['property']} --replay {rp}", cwd=VERIF, env={'HABUTAX_REPO': d})
+                    r0, _ = sh(f"./check {mu['property']} --replay {rp}", cwd=VERIF)
+                    replay = {'with_mutant_exit': r1, 'on_clean_tree_exit': r0}
+                    if r1 != 1 or r0 != 0:
+                        ok = False
             results.append(dict(id=mu['id'], property=mu['property'], what=mu['what'], suite_still_passes=suite_ok, status=status,
-                                expected=mu['expect'], as_expected=ok, first_finding=first[:300], wall_s=round(time.time() - t0, 1)))
-            print(f"{mu['id']} {mu['property']}: {status:13s} suite={'ok' if suite_ok else 'FAILS: ' + sout.strip()[:80]} {'' if ok else '<== UNEXPECTED'} {first[:140]}", flush=True)
+                                expected=mu['expect'], as_expected=ok, replay=replay, first_finding=first[:300], wall_s=round(time.time() - t0, 1)))
+            print(f"{mu['id']} {mu['property']}: {status:13s} suite={'ok' if suite_ok else 'FAILS: ' + sout.strip()[:80]} {'' if ok else '<== UNEXPECTED'} replay={replay} {first[:110]}", flush=True)
         finally:
             sh(f'git -C /repo worktree remove --force {d}')
             shutil.rmtree(d, ignore_errors=True)
